@@ -219,6 +219,9 @@ class ScriptAE(applicationentity.ClientAE):
         sub.released = True
 
 
+SUB_CTX = 9
+
+
 class SubAssociation(object):
     """Recording stand-in for the sub-association a provider opens (C-MOVE destination, N-EVENT-REPORT)."""
 
@@ -230,6 +233,14 @@ class SubAssociation(object):
         self.released = False
         self.store_status = []    # statuses to return, in order
         self.reply = None
+        # what THIS association negotiated: another context id and another transfer syntax than the association the
+        # provider is serving (whatever class is asked for)
+        import pydicom.uid as _u
+
+        class _Negotiated(dict):
+            def __missing__(self, key):
+                return (SUB_CTX, _u.ExplicitVRLittleEndian)
+        self.sop_classes_as_scu = _Negotiated()
 
     def get_scu(self, sop_class):
         def service(dataset, msg_id):
